@@ -295,7 +295,9 @@ def near_edge(xs, nb=100, eps=Fraction(1, 10 ** 6)):
         return False
     lo, hi = min(xs), max(xs)
     if lo == hi:
-        return False
+        # numpy widens the range to x -/+ 0.5, which puts every sample exactly ON the middle edge: its bin depends on the
+        # rounding of x - 0.5 and x + 0.5 unless these are exact (x a small multiple of 1/4)
+        return not (lo.denominator <= 4 and abs(lo) <= 2 ** 20)
     for x in xs:
         if x == lo or x == hi:
             continue
